@@ -300,3 +300,38 @@ package hclsyntax
 // verif:func (*Block).walkChildNodes
 //@ assigns walked, scoped, lastScope
 //@ ensures in(iface(b.Body), walked)
+
+// ---- mark propagation through operators (unit U15, C06) ----
+// verif:unit U15 props=C06
+// hclsyntax.Expression embeds hcl.Expression: same interface-level contract (see the root package file).
+// verif:func (Expression).Value
+//@ trusted
+//@ assigns allof(AnonSymbolExpr.values), allmaps(AnonSymbolExpr.values)
+//@ ensures ret0 == exprVal(self, ctx)
+// verif:func (Expression).Range
+//@ trusted
+//@ pure
+// The short-circuit hook and the operator implementation are given the unmarked operands; they
+// cannot see or change the mark sets.
+// verif:func (Operation).ShortCircuit.call
+//@ trusted
+//@ assigns nothing
+// Every mark on either operand's value is on the result, on every path that returns an operator
+// result (the error paths return the bare unknown value of the operator's type together with
+// error diagnostics).
+// verif:func (*BinaryOpExpr).Value
+//@ nosafety
+//@ requires e.Op != nil
+//@ ensures marks: forall k iface :: { marked(ret0, k) } marked(exprVal(old(e.LHS), ctx), k) || marked(exprVal(old(e.RHS), ctx), k) ==> marked(ret0, k) || bareUnknown(ret0)
+
+// The conditional operator: the marks of the condition and of both results are on the result
+// (the error paths return cty.DynamicVal or a bare unknown together with error diagnostics).
+// verif:func (*ConditionalExpr).Value
+//@ nosafety
+//@ ensures marks: forall k iface :: { marked(ret0, k) } marked(exprVal(old(e.Condition), ctx), k) || marked(exprVal(old(e.TrueResult), ctx), k) || marked(exprVal(old(e.FalseResult), ctx), k) ==> marked(ret0, k) || bareUnknown(ret0) || ret0 == cty.DynamicVal
+
+// The splat operator: the marks of the source value are on the result (error paths return
+// cty.DynamicVal together with error diagnostics).
+// verif:func (*SplatExpr).Value
+//@ nosafety
+//@ ensures marks: forall k iface :: { marked(ret0, k) } marked(exprVal(old(e.Source), ctx), k) ==> marked(ret0, k) || ret0 == cty.DynamicVal
